@@ -479,6 +479,10 @@ def analyse(job, impl, model):
                 seekable = a.get("seekable") == "1"
                 if m.strip() != "frames=%d" % F:
                     probs.append(Problem(job, "corr", "frames", "frames after re-open", k, out, m))
+                # C04 / C05 on the implementation's own transcript (round 5): N frames written re-open as N <= F < N + 160
+                if not job.stored() and not (job.n <= F < job.n + 160):
+                    probs.append(Problem(job, "pred", "frames", "%d frames written, the file re-opens with %d frames (not in [N, N + 160))" % (job.n, F), k,
+                                         expect="frames=%d " % (((job.n + 159) // 160) * 160)))
         elif t[0] == "w":
             if S.normalise(out) != S.normalise(m):
                 probs.append(Problem(job, "corr", "write", "write return value", k, out, m))
@@ -606,7 +610,7 @@ def campaign(ctx, njobs, prop):
 
 
 CATS = {
-    "C05": {"count", "position", "eof", "stream", "crash", "open"},
+    "C05": {"count", "frames", "position", "eof", "stream", "crash", "open"},
     "C06": {"stream", "position", "seek", "shortblock", "crash", "open"},
     "C07": {"partition", "crash", "open"},
 }
